@@ -20,12 +20,13 @@ LAYOUTS = {
     "deep": lambda rel, i: ("/src/x/y/" if i % 2 == 0 else "/src/") + rel.split("/")[-1],
     "two": lambda rel, i: ("/src1/" if i % 2 == 0 else "/src2/q/") + rel.split("/")[-1],
     "mirror": lambda rel, i: "/src/" + rel,                 # same structure as the torrent
+    "named-dir": lambda rel, i: "/src/%s/%s" % (rel.split("/")[-1], rel.split("/")[-1]),   # inside a directory named like the file
 }
-SEARCH = {"flat": ["/src"], "deep": ["/src"], "two": ["/src1", "/src2"], "mirror": ["/src"]}
+SEARCH = {"flat": ["/src"], "deep": ["/src"], "two": ["/src1", "/src2"], "mirror": ["/src"], "named-dir": ["/src"]}
 
 
 def build_world(E, version, shape, P, K, layout, decoy="none", dest_pre="empty", order="reversed", lo=0, names=None,
-                tname="name"):
+                tname="name", damage=None):
     """Returns (fs, sizes, meta, expected) where expected maps destination path -> content ABuf."""
     rels = names or SHAPES[shape]
     fs = AFS(order=order)
@@ -34,6 +35,15 @@ def build_world(E, version, shape, P, K, layout, decoy="none", dest_pre="empty",
     E.assume(disj(*[s > 0 for s in sizes.values()]))
     place = LAYOUTS[layout]
     for i, r in enumerate(rels):
+        if damage and i == len(rels) - 1:
+            # the last payload file is not intact in the search directories
+            if damage == "missing":
+                continue
+            o = E.int("dmg_off", 0, None)
+            E.assume(o < sizes[r])
+            fid = cr.fid_of(shape, r, names)
+            fs.add_content(place(r, i), ABuf.of([("F", fid, 0, o), ("G", ("flip", i), 0, 1), ("F", fid, o + 1, sizes[r] - o - 1)]))
+            continue
         fs.add(place(r, i), cr.fid_of(shape, r, names), sizes[r])
     for d in SEARCH[layout]:
         fs.mkdirs(d)
@@ -100,6 +110,12 @@ def conc_world(params, model, workdir, seed, hostile=None):
     data = {r: refconc.content(cr.fid_of(shape, r), sizes[r], seed) for r in rels}
     place = LAYOUTS[layout]
     for i, r in enumerate(rels):
+        dmg = params.get("damage")
+        if dmg and i == len(rels) - 1:
+            if dmg == "missing":
+                continue
+            refconc.write_file(workdir + place(r, i), refconc.flip(data[r], int(model.get("dmg_off", 0))))
+            continue
         refconc.write_file(workdir + place(r, i), data[r])
     for d in SEARCH[layout]:
         os.makedirs(workdir + d, exist_ok=True)
